@@ -394,9 +394,9 @@ def validate_cell(model, ch):
     return format_name, chosen, outcome
 
 
-def rule_consistency(ctx):
+def rule_consistency(ctx, rule_id="O11.5"):
     model = ctx.model
-    ctx.res.minimum("O11.5", 1)
+    ctx.res.minimum(rule_id, 1)
 
     def cell(ch):
         format_name, chosen, outcome = validate_cell(model, ch)
@@ -416,11 +416,20 @@ def rule_consistency(ctx):
         if outcome == "valid":
             return (key, None, None)
         if outcome == "raise InterfaceError":
-            # stricter than documented (e.g. a refusal added for configurations the csv dialect cannot represent): permitted
-            return (key, None, None)
+            # stricter than documented is permitted where the csv dialect cannot represent the configuration: a special
+            # character that is also the line delimiter, the escape character (when it is not the quote character) as item
+            # delimiter, a line break as item delimiter.  Any other refusal takes a documented setting away (for example
+            # thousands separator ',' in comma separated data, where such numbers are quoted).
+            unrepresentable = False
+            if format_name == "delimited":
+                item, quote, escape, line = (chosen[k] for k in ("_item_delimiter", "_quote_character", "_escape_character", "_line_delimiter"))
+                unrepresentable = line in (item, quote, escape) or (escape != quote and escape == item) or item in ("\n", "\r")
+            if unrepresentable:
+                return (key, None, None)
+            return (key, "consistent settings refused", outcome)
         return (key, "consistent settings give " + outcome, outcome)
 
-    decide_kinds(ctx, "O11.5", "validate(consistency matrix)", DATA_FORMAT + ".validate", cell, min_cells=400)
+    decide_kinds(ctx, rule_id, "validate(consistency matrix)", DATA_FORMAT + ".validate", cell, min_cells=400)
 
 
 def rule_documentation(ctx):
